@@ -597,7 +597,7 @@ func (l *irLoader) stringToBasicKind(s string) types.BasicInfo {
 	case "complex":
 		return types.IsComplex
 	case "untyped":
-		return types.IsUnsigned
+		return types.IsUntyped
 	case "numeric":
 		return types.IsNumeric
 	default:
